@@ -170,6 +170,81 @@ theorem loopApproxRefinementPx_invalid (method : Val → Val → Val → Val →
   unfold loopApproxRefinementPx
   simp only [hinv, h, if_true]
 
+/-! ## The right-map approximation -/
+
+theorem readAt2_eq (m : List (List Val)) (i j : Int) :
+    readAt2 m i j = match pyGet2 m i j with | some v => .ok v | none => .err .outOfBounds := by
+  have hg : getG m i = pyGetG m i := rfl
+  unfold readAt2 pyGet2
+  rw [hg]
+  cases pyGetG m i with
+  | none => rfl
+  | some l => simp only [readAt, getG_eq]; rfl
+
+theorem readAt2_some (m : List (List Val)) (i j : Int) (v : Val) (h : pyGet2 m i j = some v) : readAt2 m i j = .ok v := by
+  rw [readAt2_eq, h]
+theorem readAt2_none (m : List (List Val)) (i j : Int) (h : pyGet2 m i j = none) : readAt2 m i j = .err .outOfBounds := by
+  rw [readAt2_eq, h]
+
+@[simp] theorem vadd_nan_right (a : Val) : vadd a .nan = .nan := by cases a <;> rfl
+@[simp] theorem vneg_nan : vneg .nan = .nan := rfl
+
+/-- **the regenerated pixel body of `loop_approximate_refinement` is the model's `approxPixel`** — for every row of cost rows,
+    column, disparity (NaN included), flag word, interval, sub-pixel factor > 0, method and measure -/
+theorem loopApproxRefinementPx_eq (P : Params) (hP : P.variant = sourceVariant) (hsp : 0 < P.subpix) (x : ApxIn) :
+    loopApproxRefinementPx (kernelMethod P.method) x.rows (x.col : Int) x.d x.flag P.dmin P.dmax (P.subpix : Int)
+        (measureOf P.isMax) = encPix (approxPixel P x) := by
+  have hsp' : ((P.subpix : Int) : ℚ) ≠ 0 := by
+    have : (0 : ℚ) < ((P.subpix : Int) : ℚ) := by exact_mod_cast hsp
+    exact ne_of_gt this
+  have hinv : ((x.flag &&& (963 : Nat)) != (0 : Nat)) = Flags.isInvalid x.flag := rfl
+  unfold loopApproxRefinementPx approxPixel
+  simp only [hinv]
+  cases hi : Flags.isInvalid x.flag
+  · simp only [Bool.false_eq_true, if_false]
+    cases hd : x.d with
+    | nan => simp [intOf, encPix]
+    | num dv =>
+      simp only [vneg_num, vsub_num, vmul_num, vadd_num, intOf, bind_ok, Int.cast_natCast, Int.one_mul]
+      generalize pyInt ((-dv - P.dmin) * (P.subpix : ℚ)) = dsp
+      generalize pyInt ((x.col : ℚ) + dv) = diag
+      cases hc : pyGet2 x.rows diag dsp with
+      | none => simp [encPix, readAt2_none _ _ _ hc]
+      | some c =>
+        rw [readAt2_some _ _ _ _ hc]
+        cases c with
+        | nan => simp [encPix, Val.isNan, hd]
+        | num c1 =>
+          simp only [Val.isNan, bind_ok]
+          have hO : ∀ v, addFlag P.variant.fixOr x.flag v
+              = if Generated.KernelsRefine.flagUpdateIsOr then x.flag ||| v else x.flag + v := by
+            intro v
+            simp [addFlag, hP, sourceVariant, Generated.RefineCC.flagUpdateIsOr, Generated.KernelsRefine.flagUpdateIsOr]
+          have hF : P.variant.fixFlat = sourceVariant.fixFlat := by rw [hP]
+          simp only [Bool.not_false, if_true]
+          by_cases hg : (dv != -P.dmin && dv != -P.dmax && diag != 0 && diag != (x.rows.length : Int) - 1) = true
+          · rw [if_pos (by simpa [bne, beq_eq_decide, and_assoc] using hg), if_pos hg]
+            cases h0 : pyGet2 x.rows (diag - 1) (dsp + (P.subpix : Int)) with
+            | none => simp [encPix, readAt2_none _ _ _ h0]
+            | some c0 =>
+              rw [readAt2_some _ _ _ _ h0]
+              cases h2 : pyGet2 x.rows (diag + 1) (dsp - (P.subpix : Int)) with
+              | none => simp [encPix, readAt2_none _ _ _ h2]
+              | some c2 =>
+                rw [readAt2_some _ _ _ _ h2]
+                simp only [bind_ok, kernelMethod_eq, measureOf_eq, hF]
+                cases hr : runMethod sourceVariant.fixFlat P.method P.isMax c0 c1 c2 with
+                | err e =>
+                  have he := runMethod_err _ _ _ _ _ _ e hr
+                  simp [encRes, liftPy, encPix, he]
+                | ok r =>
+                  have hne : P.subpix ≠ 0 := by omega
+                  simp [encRes, encOut, liftPy, divBy, hsp', hne, encPix, hO, Generated.KernelsRefine.flagUpdateIsOr,
+                    Nat.or_assoc]
+          · rw [if_neg (by simpa [bne, beq_eq_decide, and_assoc] using hg), if_neg hg]
+            simp [encPix, hO, Generated.KernelsRefine.flagUpdateIsOr, stoppedBit, Flags.stoppedInterpolation]
+  · simp [encPix]
+
 /-! ## The wiring of the two public methods -/
 
 /-- what `subpixel_refinement` passes to `loop_refinement` and does with its results (locals resolved through their single
